@@ -1,12 +1,598 @@
-//! C06 — stub (not built yet).
+//! C06 — IVP builders validate input; user errors end iteration exactly once.
+//! (1) exhaustive small-scope enumeration of builder call sequences against a reference model of
+//!     the builder contract; (2) fault enumeration: the derivative fails at call k for every k.
+
+use crate::gen::ivp::*;
+use crate::ivpdrv::*;
+use crate::json::J;
+use crate::probe::{self, Guarded};
 use crate::report::*;
+use crate::rng::{CaseHash, Rng};
+use bacon_sci::ivp::{adams::*, bdf::*, rk::*, Euler, IVPError, IVPSolver, UserError};
+use bacon_sci::BVector;
+use nalgebra::{Const, Dyn, U1};
 
 pub fn meta() -> CheckMeta {
-    CheckMeta { id: "C06", level: "exploration", rule: "stub".into(), assumptions: vec![], exhaustive: false, stuck_is_violation: false }
+    CheckMeta {
+        id: "C06",
+        level: "fault_enumeration",
+        rule: "(1) builder sequences: alphabet of 17 builder calls (with_tolerance{+,0,-}, with_maximum_dt{0.25,0.5,0,-1}, with_minimum_dt{0.125,1.0,0,-0.5}, with_initial_time{0,10}, with_ending_time{0,10}, with_initial_conditions, with_derivative); ALL sequences up to length 4 (quick) / 5 (thorough), each alone and with two completing suffixes, for all 7 builders on a static dimension, and all sequences up to length 3 on a dynamic dimension; every call's outcome is compared with a reference model of the contract, complete configurations must build and their first step on y'=0 must equal the model's (dt_min+dt_max)/2 (Euler: the averaged dt). (2) faults: for every solver and problem a reference run counts N derivative calls, then for EVERY k = 1..N the derivative fails at call k with Boom(k): history must be Ok*, exactly one Err carrying Boom(k), then None on 5 further next() calls with no further derivative call; collect_vec must return that error. Non-trivial: a sequence containing an invalid value or a min/max pair in coupling order, and every distinct (solver, problem, k); distinct = hash of the sequence / fault point".into(),
+        assumptions: vec![
+            "Euler::with_tolerance is documented 'unused, no-op': for a non-positive tolerance the model accepts Ok or Err(ToleranceOOB), never a panic".into(),
+            "only the first yielded item of the y'=0 probe solve is inspected (gaps/end time are C01's statement, at-rest failures C05's)".into(),
+        ],
+        exhaustive: true,
+        stuck_is_violation: false,
+    }
 }
-pub fn stages(_ctx: &Ctx) -> Vec<Stage> {
-    vec![]
+
+// ---------------------------------------------------------------------------- builder model
+
+#[derive(Clone, Copy, Debug, PartialEq)]
+enum Sym {
+    Tol(f64),
+    Max(f64),
+    Min(f64),
+    T0(f64),
+    T1(f64),
+    Ic,
+    Der,
 }
-pub fn thresholds(_ctx: &Ctx, _rep: &Report) -> Vec<Threshold> {
-    vec![Threshold { what: "check not built".into(), required: 1.0, observed: 0.0 }]
+
+const ALPHABET: [Sym; 17] = [
+    Sym::Tol(1e-3),
+    Sym::Tol(0.0),
+    Sym::Tol(-1.0),
+    Sym::Max(0.25),
+    Sym::Max(0.5),
+    Sym::Max(0.0),
+    Sym::Max(-1.0),
+    Sym::Min(0.125),
+    Sym::Min(1.0),
+    Sym::Min(0.0),
+    Sym::Min(-0.5),
+    Sym::T0(0.0),
+    Sym::T0(10.0),
+    Sym::T1(0.0),
+    Sym::T1(10.0),
+    Sym::Ic,
+    Sym::Der,
+];
+
+fn sym_name(s: Sym) -> String {
+    match s {
+        Sym::Tol(v) => format!("with_tolerance({})", v),
+        Sym::Max(v) => format!("with_maximum_dt({})", v),
+        Sym::Min(v) => format!("with_minimum_dt({})", v),
+        Sym::T0(v) => format!("with_initial_time({})", v),
+        Sym::T1(v) => format!("with_ending_time({})", v),
+        Sym::Ic => "with_initial_conditions_slice([1.0])".into(),
+        Sym::Der => "with_derivative(zero)".into(),
+    }
+}
+
+#[derive(Clone, Copy, Debug, PartialEq)]
+enum Out {
+    Ok,
+    TolOOB,
+    DtOOB,
+    StartOOB,
+    EndOOB,
+    Missing,
+    Other,
+    Panic,
+}
+
+fn classify_err(e: &IVPError) -> Out {
+    match e {
+        IVPError::ToleranceOOB => Out::TolOOB,
+        IVPError::TimeDeltaOOB => Out::DtOOB,
+        IVPError::TimeStartOOB => Out::StartOOB,
+        IVPError::TimeEndOOB => Out::EndOOB,
+        IVPError::MissingParameters => Out::Missing,
+        _ => Out::Other,
+    }
+}
+
+/// Reference model of the builder contract (written from the trait documentation and the
+/// property text, not from the implementations).
+#[derive(Default, Clone)]
+struct Model {
+    tol: Option<f64>,
+    max: Option<f64>,
+    min: Option<f64>,
+    t0: Option<f64>,
+    t1: Option<f64>,
+    ic: bool,
+    der: bool,
+    euler: bool,
+    dt: Option<f64>,
+    saw_invalid: bool,
+    saw_coupling: bool,
+}
+
+impl Model {
+    /// returns the acceptable outcomes of this call
+    fn apply(&mut self, s: Sym) -> Vec<Out> {
+        match s {
+            Sym::Tol(v) => {
+                if v > 0.0 {
+                    if !self.euler {
+                        self.tol = Some(v);
+                    }
+                    vec![Out::Ok]
+                } else {
+                    self.saw_invalid = true;
+                    if self.euler {
+                        vec![Out::Ok, Out::TolOOB]
+                    } else {
+                        vec![Out::TolOOB]
+                    }
+                }
+            }
+            Sym::Max(v) => {
+                if v <= 0.0 {
+                    self.saw_invalid = true;
+                    return vec![Out::DtOOB];
+                }
+                if self.euler {
+                    self.dt = Some(match self.dt {
+                        Some(d) => (d + v) / 2.0,
+                        None => v,
+                    });
+                } else {
+                    self.max = Some(v);
+                    if let Some(m) = self.min {
+                        if m > v {
+                            self.min = Some(v);
+                            self.saw_coupling = true;
+                        }
+                    }
+                }
+                vec![Out::Ok]
+            }
+            Sym::Min(v) => {
+                if v <= 0.0 {
+                    self.saw_invalid = true;
+                    return vec![Out::DtOOB];
+                }
+                if self.euler {
+                    self.dt = Some(match self.dt {
+                        Some(d) => (d + v) / 2.0,
+                        None => v,
+                    });
+                } else {
+                    self.min = Some(v);
+                    if let Some(m) = self.max {
+                        if m < v {
+                            self.max = Some(v);
+                            self.saw_coupling = true;
+                        }
+                    }
+                }
+                vec![Out::Ok]
+            }
+            Sym::T0(v) => {
+                self.t0 = Some(v);
+                if let Some(e) = self.t1 {
+                    if e <= v {
+                        self.saw_invalid = true;
+                        return vec![Out::StartOOB];
+                    }
+                }
+                vec![Out::Ok]
+            }
+            Sym::T1(v) => {
+                self.t1 = Some(v);
+                if let Some(b) = self.t0 {
+                    if b >= v {
+                        self.saw_invalid = true;
+                        return vec![Out::EndOOB];
+                    }
+                }
+                vec![Out::Ok]
+            }
+            Sym::Ic => {
+                self.ic = true;
+                vec![Out::Ok]
+            }
+            Sym::Der => {
+                self.der = true;
+                vec![Out::Ok]
+            }
+        }
+    }
+    fn complete(&self) -> bool {
+        self.t0.is_some() && self.t1.is_some() && self.ic && self.der && if self.euler { self.dt.is_some() } else { self.tol.is_some() && self.max.is_some() && self.min.is_some() }
+    }
+}
+
+type F1 = fn(f64, &[f64], &mut ()) -> Result<BVector<f64, Const<1>>, UserError>;
+type FD = fn(f64, &[f64], &mut ()) -> Result<BVector<f64, Dyn>, UserError>;
+fn zero1(_t: f64, _y: &[f64], _: &mut ()) -> Result<BVector<f64, Const<1>>, UserError> {
+    Ok(BVector::<f64, Const<1>>::from_element_generic(Const::<1>, U1::from_usize(1), 0.0))
+}
+fn zerod(_t: f64, y: &[f64], _: &mut ()) -> Result<BVector<f64, Dyn>, UserError> {
+    Ok(BVector::<f64, Dyn>::from_element_generic(Dyn(y.len()), U1::from_usize(1), 0.0))
+}
+use nalgebra::Dim;
+
+struct SeqStats {
+    runs: u64,
+    complete: u64,
+    first_step_checked: u64,
+    first_item_err: u64,
+}
+
+/// Drive one sequence through builder type S. Returns Err(description) on a deviation.
+fn drive<S, D>(seq: &[Sym], euler: bool, dynamic: bool, der: S::Derivative, st: &mut SeqStats) -> Result<(bool, bool), (String, String)>
+where
+    D: bacon_sci::Dimension,
+    nalgebra::DefaultAllocator: nalgebra::allocator::Allocator<f64, D>,
+    S: IVPSolver<'static, D, Field = f64, RealField = f64, UserData = (), Error = IVPError>,
+    S::Derivative: Copy,
+{
+    st.runs += 1;
+    let mut model = Model { euler, ..Default::default() };
+    let made = probe::guard(|| if dynamic { S::new_dyn(1) } else { S::new() });
+    let mut b = match made {
+        Guarded::Ok(Ok(b)) => b,
+        Guarded::Ok(Err(e)) => return Err(("constructor-rejected".into(), format!("constructor failed: {:?}", e))),
+        _ => return Err(("panic".into(), "constructor panicked".into())),
+    };
+    for (i, s) in seq.iter().enumerate() {
+        let allowed = model.apply(*s);
+        let r = probe::guard(|| match *s {
+            Sym::Tol(v) => b.with_tolerance(v),
+            Sym::Max(v) => b.with_maximum_dt(v),
+            Sym::Min(v) => b.with_minimum_dt(v),
+            Sym::T0(v) => b.with_initial_time(v),
+            Sym::T1(v) => b.with_ending_time(v),
+            Sym::Ic => b.with_initial_conditions_slice(&[1.0]),
+            Sym::Der => Ok(b.with_derivative(der)),
+        });
+        let (out, nb) = match r {
+            Guarded::Ok(Ok(nb)) => (Out::Ok, Some(nb)),
+            Guarded::Ok(Err(e)) => (classify_err(&e), None),
+            _ => (Out::Panic, None),
+        };
+        if !allowed.contains(&out) {
+            let sig = if out == Out::Panic { "panic" } else if out == Out::Ok { "invalid-value-accepted" } else { "wrong-outcome" };
+            return Err((sig.into(), format!("call {} {}: got {:?}, contract allows {:?}", i, sym_name(*s), out, allowed)));
+        }
+        match nb {
+            Some(x) => b = x,
+            None => return Ok((model.saw_invalid, model.saw_coupling)),
+        }
+    }
+    let complete = model.complete();
+    let r = probe::guard(|| b.solve(()));
+    match r {
+        Guarded::Panic(m, l) => Err(("panic".into(), format!("solve() panicked: {} at {}", m, l))),
+        Guarded::Budget => Err(("panic".into(), "solve() hit the budget sentinel".into())),
+        Guarded::Ok(Err(e)) => {
+            if complete {
+                Err(("complete-config-rejected".into(), format!("solve() returned {:?} on a complete valid configuration", e)))
+            } else if classify_err(&e) == Out::Missing {
+                Ok((model.saw_invalid, model.saw_coupling))
+            } else {
+                Err(("wrong-outcome".into(), format!("solve() on an incomplete configuration returned {:?}, expected MissingParameters", e)))
+            }
+        }
+        Guarded::Ok(Ok(mut it)) => {
+            if !complete {
+                return Err(("incomplete-config-accepted".into(), "solve() returned Ok although a mandatory parameter is missing".into()));
+            }
+            st.complete += 1;
+            // observe the effective step through the first item(s) of y' = 0
+            let t0 = model.t0.unwrap();
+            let t1 = model.t1.unwrap();
+            let first = probe::guard(|| {
+                let a = it.next();
+                let b = if euler { it.next() } else { None };
+                (a, b)
+            });
+            let (a, b2) = match first {
+                Guarded::Ok(x) => x,
+                _ => return Err(("panic".into(), "next() panicked on y' = 0".into())),
+            };
+            if euler {
+                let dt = model.dt.unwrap();
+                match (a, b2) {
+                    (Some(Ok((ta, _))), Some(Ok((tb, _)))) => {
+                        st.first_step_checked += 1;
+                        if ta != t0 || ((tb - ta) - dt.min(t1 - t0)).abs() > 1e-12 {
+                            return Err(("effective-step".into(), format!("Euler: first items at {} and {}: step {} but the contract gives dt = {}", ta, tb, tb - ta, dt)));
+                        }
+                    }
+                    _ => st.first_item_err += 1,
+                }
+            } else {
+                let (mn, mx) = (model.min.unwrap(), model.max.unwrap());
+                let dt0 = (mn + mx) / 2.0;
+                match a {
+                    Some(Ok((ta, _))) => {
+                        st.first_step_checked += 1;
+                        // alphabet: t0 = 0, t1 = 10, dt0 <= 1 : no clipping, no shortened start-up
+                        if !((ta - t0 - dt0).abs() <= 1e-12) {
+                            return Err((
+                                "effective-step".into(),
+                                format!("first yielded time {} is t0 + {}, but minimum <= maximum coupling gives (dt_min, dt_max) = ({}, {}) and a first step of {}", ta, ta - t0, mn, mx, dt0),
+                            ));
+                        }
+                    }
+                    _ => st.first_item_err += 1,
+                }
+            }
+            Ok((model.saw_invalid, model.saw_coupling))
+        }
+    }
+}
+
+fn drive_solver(solver: Solver, dynamic: bool, seq: &[Sym], st: &mut SeqStats) -> Result<(bool, bool), (String, String)> {
+    macro_rules! go {
+        ($S:ident, $e:expr) => {{
+            if dynamic {
+                drive::<$S<'static, f64, Dyn, (), FD>, Dyn>(seq, $e, true, zerod as FD, st)
+            } else {
+                drive::<$S<'static, f64, Const<1>, (), F1>, Const<1>>(seq, $e, false, zero1 as F1, st)
+            }
+        }};
+    }
+    match solver {
+        Solver::Euler => go!(Euler, true),
+        Solver::RK45 => go!(RungeKutta45, false),
+        Solver::RK23 => go!(RungeKutta23, false),
+        Solver::Adams5 => go!(Adams5, false),
+        Solver::Adams3 => go!(Adams3, false),
+        Solver::BDF6 => go!(BDF6, false),
+        Solver::BDF2 => go!(BDF2, false),
+    }
+}
+
+const SUFFIXES: [&[Sym]; 3] = [
+    &[],
+    &[Sym::Tol(1e-3), Sym::Ic, Sym::Der],
+    &[Sym::T0(0.0), Sym::T1(10.0), Sym::Ic, Sym::Der, Sym::Tol(1e-3)],
+];
+
+fn run_sequence(rep: &mut Report, solver: Solver, dynamic: bool, idx: &[usize], st: &mut SeqStats) {
+    let base: Vec<Sym> = idx.iter().map(|i| ALPHABET[*i]).collect();
+    for suf in SUFFIXES.iter() {
+        let mut full = base.clone();
+        full.extend_from_slice(suf);
+        rep.eval();
+        match drive_solver(solver, dynamic, &full, st) {
+            Ok((inv, coup)) => {
+                if inv || coup {
+                    let mut h = CaseHash::new("c06-seq").u(solver.idx() as u64).u(dynamic as u64);
+                    for s in &full {
+                        h = h.s(&sym_name(*s));
+                    }
+                    rep.nontrivial(h.0);
+                    if coup {
+                        rep.count("sequences_with_min_max_coupling", 1);
+                    }
+                    if inv {
+                        rep.count("sequences_with_invalid_value", 1);
+                    }
+                    if coup && rep.wants_sample() && full.len() <= 6 {
+                        rep.sample(J::obj().set("kind", "builder-sequence").set("solver", solver.name()).set("dynamic", dynamic).set("calls", J::Arr(full.iter().map(|s| J::from(sym_name(*s))).collect())).set("outcome", "every call matched the contract model"));
+                    }
+                }
+            }
+            Err((sig, detail)) => {
+                rep.violation(
+                    &format!("builder/{}/{}", solver.name(), sig),
+                    J::obj().set("solver", solver.name()).set("dynamic", dynamic).set("calls", J::Arr(full.iter().map(|s| J::from(sym_name(*s))).collect())),
+                    detail,
+                );
+            }
+        }
+    }
+}
+
+fn enumerate(rep: &mut Report, solver: Solver, dynamic: bool, idx: &mut Vec<usize>, maxlen: usize, st: &mut SeqStats) {
+    run_sequence(rep, solver, dynamic, idx, st);
+    if idx.len() < maxlen {
+        for i in 0..ALPHABET.len() {
+            idx.push(i);
+            enumerate(rep, solver, dynamic, idx, maxlen, st);
+            idx.pop();
+        }
+    }
+}
+
+// ---------------------------------------------------------------------------- fault enumeration
+
+fn fault_case(rep: &mut Report, solver: Solver, prob: &IvpProblem, cfg: &Cfg, mode: DimMode, stride: u64) {
+    let sname = solver.name();
+    let base = Opts { budget: 2_000_000, max_items: 100_000, mode, extra_next: 5, ..Default::default() };
+    let reference = solve_real(solver, cfg, &prob.y0, prob, &base);
+    rep.eval();
+    let case0 = || J::obj().set("solver", sname).set("mode", format!("{:?}", mode)).set("cfg", cfg.to_json()).set("problem", prob.to_json());
+    if !reference.clean() {
+        rep.inconclusive("reference-run-not-clean(C05)");
+        return;
+    }
+    // after normal completion the iterator stays exhausted
+    if reference.extra_some > 0 || reference.extra_calls > 0 {
+        rep.violation(&format!("fault/{}/items-after-normal-end", sname), case0(), format!("{} item(s) and {} derivative call(s) after the iterator returned None", reference.extra_some, reference.extra_calls));
+        return;
+    }
+    let n = reference.calls;
+    rep.count(&format!("{}/reference_calls", sname), n as i64);
+    let ref_pts = reference.ok_points();
+    let mut k = 1;
+    while k <= n {
+        let opts = Opts { fail_at: Some(k), ..base.clone() };
+        let out = solve_real(solver, cfg, &prob.y0, prob, &opts);
+        rep.eval();
+        rep.count(&format!("{}/fault_points", sname), 1);
+        let case = || case0().set("fail_at_call", k).set("reference_calls", n);
+        let mut ok = true;
+        if let Some((m, l)) = &out.panic {
+            rep.violation(&format!("fault/{}/panic", sname), case(), format!("panicked with a failing derivative: {} at {}", m, l));
+            ok = false;
+        } else if out.build_err.is_some() {
+            rep.violation(&format!("fault/{}/build", sname), case(), format!("{:?}", out.build_err));
+            ok = false;
+        } else {
+            // history: Ok*, then exactly one Err carrying Boom(k)
+            let n_items = out.items.len();
+            let errs = out.n_err();
+            let last_is_err = matches!(out.items.last(), Some(Item::Err(_)));
+            if errs != 1 || !last_is_err {
+                rep.violation(
+                    &format!("fault/{}/not-exactly-one-err", sname),
+                    case(),
+                    format!("history has {} items with {} Err item(s); last item is {}an Err (derivative calls made: {})", n_items, errs, if last_is_err { "" } else { "not " }, out.calls),
+                );
+                ok = false;
+            } else {
+                match out.items.last() {
+                    Some(Item::Err(ErrKind::User(_, Some(kk)))) if *kk == k => {}
+                    Some(Item::Err(e)) => {
+                        rep.violation(&format!("fault/{}/err-does-not-carry-user-error", sname), case(), format!("the Err item is {} instead of UserError(Boom({}))", e.short(), k));
+                        ok = false;
+                    }
+                    _ => {}
+                }
+            }
+            if ok && (out.extra_some > 0 || out.extra_calls > 0 || out.calls != k) {
+                rep.violation(
+                    &format!("fault/{}/iteration-continues-after-error", sname),
+                    case(),
+                    format!("after the Err item: {} further item(s) from 5 next() calls, {} further derivative call(s); total calls {} (fault at {})", out.extra_some, out.extra_calls, out.calls, k),
+                );
+                ok = false;
+            }
+            if ok {
+                // the Ok prefix must be a prefix of the reference path (same problem, same arithmetic)
+                let pts = out.ok_points();
+                let same = pts.len() <= ref_pts.len() && pts.iter().zip(&ref_pts).all(|(a, b)| a.0 == b.0 && a.1 == b.1);
+                if !same {
+                    rep.violation(&format!("fault/{}/prefix-differs", sname), case(), format!("the {} points yielded before the error are not a prefix of the fault-free path", pts.len()));
+                    ok = false;
+                }
+            }
+        }
+        if ok {
+            // collect_vec on an identically configured run returns that error
+            let o2 = solve_real(solver, cfg, &prob.y0, prob, &Opts { collect_vec: true, ..opts.clone() });
+            rep.eval();
+            match o2.items.as_slice() {
+                [Item::Err(ErrKind::User(_, Some(kk)))] if *kk == k => {}
+                other => {
+                    rep.violation(
+                        &format!("fault/{}/collect-vec", sname),
+                        case(),
+                        format!("collect_vec returned {} item(s) / {:?} instead of Err(UserError(Boom({})))", other.len(), o2.first_err().map(|e| e.short()), k),
+                    );
+                    ok = false;
+                }
+            }
+        }
+        if ok {
+            rep.nontrivial(CaseHash::new("c06-fault").u(solver.idx() as u64).fs(&prob.a).f(cfg.tol).f(cfg.t1).u(k).0);
+            if rep.wants_sample() && k == n / 2 + 1 {
+                let hist: Vec<J> = out.items.iter().map(|i| match i {
+                    Item::Ok(t, _) => J::from(format!("Ok(t={:.6})", t)),
+                    Item::Err(e) => J::from(format!("Err({})", e.short())),
+                }).collect();
+                rep.sample(case().set("kind", "fault").set("history", J::Arr(hist)).set("then", "None x5, no further derivative call; collect_vec -> same error"));
+            }
+        }
+        k += stride;
+    }
+}
+
+pub fn stages(ctx: &Ctx) -> Vec<Stage> {
+    let seed = ctx.seed;
+    let tier = ctx.tier;
+    let mut st = vec![];
+    // (1a) static dimension: 7 solvers x prefixes of length <= 2; each length-2 prefix expands its subtree
+    let a = ALPHABET.len() as u64;
+    let per_solver = 1 + a + a * a;
+    let maxlen = tier.pick(4usize, 5usize);
+    st.push(Stage::new("builder-static", 7 * per_solver, move |i, rep| {
+        let solver = Solver::ALL[(i / per_solver) as usize];
+        let r = i % per_solver;
+        let mut stt = SeqStats { runs: 0, complete: 0, first_step_checked: 0, first_item_err: 0 };
+        if r == 0 {
+            run_sequence(rep, solver, false, &[], &mut stt);
+        } else if r <= a {
+            run_sequence(rep, solver, false, &[(r - 1) as usize], &mut stt);
+        } else {
+            let q = r - 1 - a;
+            let mut idx = vec![(q / a) as usize, (q % a) as usize];
+            enumerate(rep, solver, false, &mut idx, maxlen, &mut stt);
+        }
+        rep.count(&format!("{}/sequence_runs", solver.name()), stt.runs as i64);
+        rep.count(&format!("{}/complete_configs_built", solver.name()), stt.complete as i64);
+        rep.count(&format!("{}/first_step_observed", solver.name()), stt.first_step_checked as i64);
+        rep.count("first_item_err_inconclusive", stt.first_item_err as i64);
+    }));
+    // (1b) dynamic dimension, length <= 3
+    st.push(Stage::new("builder-dynamic", 7 * (1 + a), move |i, rep| {
+        let solver = Solver::ALL[(i / (1 + a)) as usize];
+        let r = i % (1 + a);
+        let mut stt = SeqStats { runs: 0, complete: 0, first_step_checked: 0, first_item_err: 0 };
+        if r == 0 {
+            run_sequence(rep, solver, true, &[], &mut stt);
+        } else {
+            let mut idx = vec![(r - 1) as usize];
+            enumerate(rep, solver, true, &mut idx, 3, &mut stt);
+        }
+        rep.count(&format!("{}/sequence_runs_dynamic", solver.name()), stt.runs as i64);
+        rep.count(&format!("{}/first_step_observed", solver.name()), stt.first_step_checked as i64);
+        rep.count("first_item_err_inconclusive", stt.first_item_err as i64);
+    }));
+    // (1c) static/dynamic dimension misuse
+    st.push(Stage::new("dimension-misuse", 7, move |i, rep| {
+        let solver = Solver::ALL[i as usize];
+        for (what, got) in dimension_misuse(solver) {
+            rep.eval();
+            let expect = match what.as_str() {
+                "new() on Dyn" => "StaticOnDynamic",
+                "new_dyn(2) on Const<1>" => "DynamicOnStatic",
+                _ => "Ok",
+            };
+            rep.count("dimension_misuse_probes", 1);
+            if got != expect {
+                rep.violation(&format!("builder/{}/dimension-misuse", solver.name()), J::obj().set("solver", solver.name()).set("call", what.as_str()), format!("{} returned {}, contract: {}", what, got, expect));
+            } else {
+                rep.nontrivial(CaseHash::new("c06-dim").u(solver.idx() as u64).s(&what).0);
+            }
+        }
+    }));
+    // (2) fault enumeration
+    let n_prob = tier.pick(2u64, 10u64);
+    st.push(Stage::new("faults", 7 * n_prob, move |i, rep| {
+        let solver = Solver::ALL[(i % 7) as usize];
+        let p = i / 7;
+        // the first two problems are seed-independent anchors
+        let mut rng = if p < 2 { Rng::for_case(606, "c06-fault-anchor", p) } else { Rng::for_case(seed, "c06-fault", p) };
+        let n = 1 + (p as usize) % 3;
+        let prob = IvpProblem::gen(&mut rng, n, [0usize, 2, 1, 5][(p % 4) as usize]);
+        let tol = rng.log10(-7.0, -4.0);
+        let dt_max = if solver == Solver::Euler { 0.02 } else { dtmax_for(solver, prob.lip, tol, 0.9) * 3.0 };
+        let steps = if solver == Solver::Euler { 40.0 } else { rng.r(12.0, 30.0) };
+        let cfg = Cfg { t0: 0.0, t1: dt_max * steps, dt_min: dt_max * 1e-7, dt_max, tol };
+        fault_case(rep, solver, &prob, &cfg, if p % 2 == 0 { DimMode::Static } else { DimMode::Dynamic }, 1);
+    }));
+    st
+}
+
+pub fn thresholds(ctx: &Ctx, rep: &Report) -> Vec<Threshold> {
+    let mut t = vec![];
+    let per_builder = if ctx.tier == Tier::Quick { 250_000.0 } else { 4_000_000.0 };
+    for s in Solver::ALL {
+        t.push(Threshold { what: format!("{}: builder sequences driven (static)", s.name()), required: per_builder, observed: rep.counter(&format!("{}/sequence_runs", s.name())) as f64 });
+        t.push(Threshold { what: format!("{}: complete configurations whose first step was observed", s.name()), required: 100.0, observed: rep.counter(&format!("{}/first_step_observed", s.name())) as f64 });
+        t.push(Threshold { what: format!("{}: fault points enumerated", s.name()), required: 50.0, observed: rep.counter(&format!("{}/fault_points", s.name())) as f64 });
+    }
+    t.push(Threshold { what: "sequences exercising the min/max coupling rule".into(), required: 1000.0, observed: rep.counter("sequences_with_min_max_coupling") as f64 });
+    t.push(Threshold { what: "dimension misuse probes".into(), required: 28.0, observed: rep.counter("dimension_misuse_probes") as f64 });
+    t
 }
